@@ -104,81 +104,103 @@ def task(pd, cse, tier, seed):
 
     leaves = explore(harness, assumes=assumes)
     part.leaves(leaves)
-    if len(leaves) != 1 or leaves[0].status != "ok":
-        part.harness_error(f"{key_base}: expected one ok path, got {leaves}")
+    if any(l.status != "ok" for l in leaves):
+        bad = [l for l in leaves if l.status != "ok"][0]
+        e0 = pyh.seeded_points(list(env), seed + 2, 1)[0]
+        try:
+            concrete_model_sequence(p, cse, [e0, pyh.seeded_points(list(env), seed + 6, 1)[0]])
+            part.harness_error(f"{key_base}: a symbolic path failed ({bad}) but the concrete two-call sequence succeeds")
+        except Exception as ex:
+            path = write_replay(PID, {"key": key_base + "/raises", "info": {"program": p.id, "cse": cse, "kind": "model"}, "inputs": e0, "exception": f"{type(ex).__name__}: {ex}"})
+            part.violation(key_base + "/raises", f"Model.model raises {type(ex).__name__}: {ex}", path)
         return part.d
-    out, out2, stable = leaves[0].value
-    from .common import Q
+    base_assumes, key_base0 = assumes, key_base
+    from .common import solve as _solve
 
-    part.record(Q("unsat" if stable else "sat", None, 0.0, ""), f"{key_base}: the state returned by an earlier call is unchanged by a later call (no aliasing)")
-    if not stable:
-        e1 = pyh.seeded_points(list(env), seed + 3, 1)[0]
-        e2 = pyh.seeded_points(list(env), seed + 4, 1)[0]
-        held = concrete_model_sequence(p, cse, [e1, e2], hold_first=True)
-        fresh = concrete_model(p, cse, e1)
-        bad = {s: (held[s], fresh[s]) for s in p.state if not approx_equal(held[s], fresh[s])}
-        if bad:
-            path = write_replay(PID, {"key": key_base + "/aliasing", "info": {"program": p.id, "cse": cse, "kind": "aliasing"}, "inputs": {"first": e1, "second": e2}, "changed": bad})
-            part.violation(key_base + "/aliasing", f"the State returned by model() for {e1} changed after a later call with {e2}: {bad}", path)
-        else:
-            part.harness_error(f"{key_base}: symbolic aliasing not reproduced concretely")
-    ss = p.s_state()
-    impl = {s: lift(out.data[ss.index(s), 0]) for s in p.state}
-    reach(part, key_base + "/assumptions-sat", assumes)
+    for li, leaf in enumerate(leaves):
+        assumes = base_assumes + leaf.pc
+        if len(leaves) > 1:
+            if _solve(assumes, 5000).status == "unsat":
+                continue
+            key_base = f"{key_base0}/path{li}"
+        out, out2, stable = leaf.value
+        from .common import Q
 
-    # encoding validation: the symbolic impl term evaluated at the points == the concrete run
-    for pt, got, want in concrete:
-        for s in p.state:
-            v = zeval(impl[s], pt)
-            if not approx_equal(v, got[s]):
-                part.harness_error(f"{key_base}: encoding validation failed for {s} at {pt}: symbolic {v} vs concrete {got[s]}")
+        part.record(Q("unsat" if stable else "sat", None, 0.0, ""), f"{key_base}: the state returned by an earlier call is unchanged by a later call (no aliasing)")
+        if not stable:
+            e1 = pyh.seeded_points(list(env), seed + 3, 1)[0]
+            e2 = pyh.seeded_points(list(env), seed + 4, 1)[0]
+            held = concrete_model_sequence(p, cse, [e1, e2], hold_first=True)
+            fresh = concrete_model(p, cse, e1)
+            bad = {s: (held[s], fresh[s]) for s in p.state if not approx_equal(held[s], fresh[s])}
+            if bad:
+                path = write_replay(PID, {"key": key_base + "/aliasing", "info": {"program": p.id, "cse": cse, "kind": "aliasing"}, "inputs": {"first": e1, "second": e2}, "changed": bad})
+                part.violation(key_base + "/aliasing", f"the State returned by model() for {e1} changed after a later call with {e2}: {bad}", path)
+            else:
+                part.harness_error(f"{key_base}: symbolic aliasing not reproduced concretely")
+        ss = p.s_state()
+        impl = {s: lift(out.data[ss.index(s), 0]) for s in p.state}
+        reach(part, key_base + "/assumptions-sat", assumes)
 
-    def mk_replay(s):
-        def replay(e):
-            got = concrete_model(p, cse, e)
-            return {"impl": got[s], "spec": X.evalf(p.update[s], e)}
-
-        return replay
-
-    for s in p.state:
-        st = prove_equal(part, PID, f"{key_base}/model[{s}]==spec", impl[s], spec[s], assumes, tmo, replay=mk_replay(s), key=f"{key_base}/model[{s}]", info={"program": p.id, "cse": cse, "state": s, "kind": "model"}, all_vars=env)
-    # second call on the same object, fresh inputs: must be the specification at the *new* inputs
-    assumes2 = assumes + [pyh.subst_env(a, env, env2) for a in assumes]
-
-    def mk_replay2(s):
-        def replay(e):
-            e1 = {n: e.get(n, 0.5) for n in env}
-            e2 = {n: e.get(env2[n].decl().name(), 0.5) for n in env}
-            for c in p.calibration:
-                e2[c] = e1[c]
-            got = concrete_model_sequence(p, cse, [e1, e2])[1]
-            return {"impl": got[s], "spec": X.evalf(p.update[s], e2)}
-
-        return replay
-
-    allv2 = dict(env)
-    allv2.update({v.decl().name(): v for v in env2.values()})
-
-    def colliding_envs(rng, cnt):
-        """Candidate input pairs that differ although their float hashes collide (hash(-1.0) == hash(-2.0),
-        hash(1.0) == hash(2.0**61)): what a memo keyed on hash() instead of equality confuses."""
-        out = []
-        for a, b in ((-1.0, -2.0), (1.0, 2.0**61 if False else 1.0)):
-            for v in env:
-                if v in p.calibration:
+        # encoding validation: the symbolic impl term evaluated at the points == the concrete run
+        for pt, got, want in concrete:
+            try:
+                if leaf.pc and not all(zeval(c_, pt) for c_ in leaf.pc):
                     continue
-                e = {n: a for n in env}
-                for n in env:
-                    if n not in p.calibration:
-                        e[env2[n].decl().name()] = a
-                e[env2[v].decl().name()] = b
-                if a != b:
-                    out.append(e)
-        rng.shuffle(out)
-        return out[: max(cnt, 8)]
+            except KeyError:
+                continue
+            for s in p.state:
+                v = zeval(impl[s], pt)
+                if not approx_equal(v, got[s]):
+                    part.harness_error(f"{key_base}: encoding validation failed for {s} at {pt}: symbolic {v} vs concrete {got[s]}")
 
-    for s in p.state:
-        prove_equal(part, PID, f"{key_base}/second call model[{s}]==spec at the new inputs", lift(out2.data[ss.index(s), 0]), pyh.subst_env(spec[s], env, env2), assumes2, tmo, replay=mk_replay2(s), key=f"{key_base}/second-call[{s}]", info={"program": p.id, "cse": cse, "state": s, "kind": "second-call"}, all_vars=allv2, seeded_envs=colliding_envs)
+        def mk_replay(s):
+            def replay(e):
+                got = concrete_model(p, cse, e)
+                return {"impl": got[s], "spec": X.evalf(p.update[s], e)}
+
+            return replay
+
+        for s in p.state:
+            st = prove_equal(part, PID, f"{key_base}/model[{s}]==spec", impl[s], spec[s], assumes, tmo, replay=mk_replay(s), key=f"{key_base}/model[{s}]", info={"program": p.id, "cse": cse, "state": s, "kind": "model"}, all_vars=env)
+        # second call on the same object, fresh inputs: must be the specification at the *new* inputs
+        assumes2 = assumes + [pyh.subst_env(a, env, env2) for a in assumes]
+
+        def mk_replay2(s):
+            def replay(e):
+                e1 = {n: e.get(n, 0.5) for n in env}
+                e2 = {n: e.get(env2[n].decl().name(), 0.5) for n in env}
+                for c in p.calibration:
+                    e2[c] = e1[c]
+                got = concrete_model_sequence(p, cse, [e1, e2])[1]
+                return {"impl": got[s], "spec": X.evalf(p.update[s], e2)}
+
+            return replay
+
+        allv2 = dict(env)
+        allv2.update({v.decl().name(): v for v in env2.values()})
+
+        def colliding_envs(rng, cnt):
+            """Candidate input pairs that differ although their float hashes collide (hash(-1.0) == hash(-2.0),
+            hash(1.0) == hash(2.0**61)): what a memo keyed on hash() instead of equality confuses."""
+            out = []
+            for a, b in ((-1.0, -2.0), (1.0, 2.0**61 if False else 1.0)):
+                for v in env:
+                    if v in p.calibration:
+                        continue
+                    e = {n: a for n in env}
+                    for n in env:
+                        if n not in p.calibration:
+                            e[env2[n].decl().name()] = a
+                    e[env2[v].decl().name()] = b
+                    if a != b:
+                        out.append(e)
+            rng.shuffle(out)
+            return out[: max(cnt, 8)]
+
+        for s in p.state:
+            prove_equal(part, PID, f"{key_base}/second call model[{s}]==spec at the new inputs", lift(out2.data[ss.index(s), 0]), pyh.subst_env(spec[s], env, env2), assumes2, tmo, replay=mk_replay2(s), key=f"{key_base}/second-call[{s}]", info={"program": p.id, "cse": cse, "state": s, "kind": "second-call"}, all_vars=allv2, seeded_envs=colliding_envs)
+    assumes, key_base = base_assumes, key_base0
     part.sample({"program": p.id, "cse": cse, "state": ss[0], "impl": str(z3.simplify(impl[ss[0]]))[:200], "spec": str(spec[ss[0]])[:200]})
     return part.d
 
